@@ -23,7 +23,11 @@ applies `LazyArgumentMap.Path(outputId, stageType, type)` (projection, then
 element type, a map literal at a typed-map type its values at the value type,
 at a struct type exactly the DECLARED members at their types (`resolveMap`), a
 `DisabledExp` evaluates its control at `bool` and yields null or the value,
-`split` / `merge` select / collect over the forks of a mapped call.
+`split` / `merge` select / collect over the forks of a mapped call.  A map / struct
+literal at a type that is neither a typed map nor a struct (an untyped `map`
+parameter) is evaluated entry by entry as it stands: in the code such an
+expression is reference-free (the compiler rejects references inside untyped
+maps) and `resolve` returns it unchanged (`!binding.HasRef() && !binding.HasSplit()`).
 
 This file: the static phase for PLAIN call graphs (no map call, no `disabled`
 modifier: there `mapped`/`Forks`/`split` are empty and `Disable` is nil, so
@@ -187,13 +191,13 @@ def evalRT (st : StructTable) (nf : Nat) (ρ : Store) : ForkAssign → Ty → RE
     else
       match st.lookup t.base with
       | some ps => .obj (ps.map fun p => (p.name, ((evalRTMembers st nf ρ f ps kvs).lookup p.name).getD .null))
-      | none => .null
+      | none => .obj (evalRTFields st nf ρ f ⟨t.base, 0, 0⟩ kvs)
   | f, t, .struct kvs =>
     if t.arrDim == 0 && t.mapDim != 0 then .obj (evalRTFields st nf ρ f ⟨t.base, 0, t.mapDim - 1⟩ kvs)
     else
       match st.lookup t.base with
       | some ps => .obj (ps.map fun p => (p.name, ((evalRTMembers st nf ρ f ps kvs).lookup p.name).getD .null))
-      | none => .null
+      | none => .obj (evalRTFields st nf ρ f ⟨t.base, 0, 0⟩ kvs)
   | f, t, .ref node sty path => narrow st nf t (projPath st sty path (ρ.outs node f))
   | f, t, .split c false e => elemArr (evalRT st nf ρ f { t with arrDim := t.arrDim + 1 } e) ((f.lookup c).getD .none)
   | f, t, .split c true e => elemMap (evalRT st nf ρ f ⟨t.base, t.arrDim + 1, 0⟩ e) ((f.lookup c).getD .none)
